@@ -119,6 +119,8 @@ def main():
             if r.failed() or (not r.harness_problem() and r.verdict != "timeout"
                               and mod.judge(failure["case"], r, ctx)):
                 confirmed += 1
+                if ctx["native"]:
+                    break   # one reproduction under OS scheduling is enough
         failure["confirmed"] = confirmed
         failure["flavour"] = a.flavour
     ex.close()
